@@ -814,6 +814,8 @@ class Engine(object):
             return self.fresh_of_type(ex, contract.get("returns", "None"), "ret_" + fq.rsplit(".", 1)[-1], env)
         cases = contract.get("cases")
         if cases:
+            for nm, expr in (contract.get("old") or {}).items():
+                env[nm] = self.snapshot(ex.spec_eval(expr, env))      # pre-state names, shared by every case
             chosen = None
             for case in cases:
                 w = case.get("when")
@@ -822,6 +824,9 @@ class Engine(object):
                     break
             if chosen is None:
                 raise Infeasible()
+            chosen = dict(chosen)
+            chosen.setdefault("havoc", contract.get("havoc"))      # what the call may change is said once, for all cases
+            chosen.setdefault("pure", contract.get("pure"))
             return self.assume_post(ex, chosen, env, fq)
         return self.assume_post(ex, contract, env, fq)
 
@@ -902,6 +907,10 @@ class Engine(object):
         o = env[parts[0]]
         for p in parts[1:-1]:
             o = o.fields[p]
+        if isinstance(o, FileObj) and parts[-1] == "pos":
+            ex.note_write(o)
+            o.pos = ex.ctx.fresh("fpos")       # a callee moved the read position: its contract says where to
+            return
         if not isinstance(o, Obj):
             raise Unsupported("havoc of non-object path " + path)
         ex.note_write(o)
@@ -949,7 +958,13 @@ class Engine(object):
             if a.startswith("[") and isinstance(v, PList) and len(split_top(a[1:-1])) == len(v.items):
                 return True
             if a.startswith("(") and isinstance(v, tuple):
-                return True
+                parts = split_top(a[1:-1])
+                if len(parts) == len(v) and all(p.strip().startswith(("dict[", "(")) is False or self.kind_ok(x, p.strip())
+                                                for x, p in zip(v, parts)):
+                    return True
+                if len(parts) != len(v):
+                    continue
+                return False
             if a.startswith("list[") and isinstance(v, (PList, SList, RepList)):
                 return True
             if a.startswith("periodic[") and isinstance(v, (PList, RepList)):
@@ -959,7 +974,10 @@ class Engine(object):
             if a == "emptydict" and isinstance(v, PDict) and not v.d:
                 return True
             if a.startswith("dict[") and isinstance(v, PDict):
-                return True
+                want = [kv.split(":", 1)[0].strip() for kv in split_top(a[5:-1])]
+                if sorted(want) == sorted(str(k) for k in v.d):      # exactly the declared keys
+                    return True
+                continue
             if a == "file" and isinstance(v, FileObj):
                 return True
             if a in self.classes and isinstance(v, Obj):
@@ -1238,7 +1256,7 @@ class Engine(object):
         for (nm, e) in named_posts:
             try:
                 g = ex.spec_bool(e, env, goal=True)
-            except Raised:
+            except (Raised, Unsupported):
                 # a clause that is not defined in this state: harmless only if its case cannot apply on this path
                 if when is not None and not ctx.feasible(when):
                     ctx.emit("post", "%s/%s" % (pre, nm), True, None, note="case not applicable on this path")
